@@ -275,7 +275,9 @@ impl Prop for C09 {
 
 	fn enumerate(tier: Tier, shard: usize, nshards: usize, f: &mut dyn FnMut(Case, bool) -> bool) -> Vec<&'static str> {
 		// one path beyond 4 GiB per family (thorough tier only: ~9 GiB of memory, a minute)
-		if tier == Tier::Thorough && shard == 0 {
+		// (skipped when the machine does not have 24 GiB available: being killed for memory is not a verdict)
+		let mem_ok = std::fs::read_to_string("/proc/meminfo").ok().and_then(|m| m.lines().find(|l| l.starts_with("MemAvailable:")).and_then(|l| l.split_whitespace().nth(1).and_then(|kb| kb.parse::<u64>().ok()))).map(|kb| kb >= 24 * 1024 * 1024).unwrap_or(false);
+		if tier == Tier::Thorough && shard == 0 && mem_ok {
 			for (fam, abs) in [(Fam::Uri, true), (Fam::Iri, false)] {
 				if !f(Case { fam, embed: None, abs, segs: vec!["0123456789abcdef".into()], repeat_first: Some((1usize << 28) + 1) }, true) {
 					return vec![];
